@@ -363,12 +363,39 @@ pub fn drive_encrypt(t: &mut Tracer, tier: &str, seed: u64, plan: Option<String>
         let o = out.ok().cloned().unwrap_or_default();
         t.emit(&sess(), "sm2.kdf", json!({"prop": "C05", "z": bytes(&z), "klen": klen, "out": bytes(&o), "outcome": out.name(), "detail": out.detail()}));
     }
-    // spec-made ciphertexts (TLC plan): the library must decrypt them
+    // spec-made ciphertexts (TLC plan): the library must decrypt them -- in the raw framing and, as an independent encryptor such as
+    // OpenSSL delivers them, as the GM/T 0009 DER SEQUENCE
     for v in read_plan(&plan) {
         if v["kind"] == "specct" && v["ok"] == "ok" {
             decrypt_event(t, &sess(), "C05", &arr(&v["d"]), &arr(&v["ct"]), v["order"].as_str().unwrap(), v["compressed"] == 1, "spec-made");
+            if v["compressed"] == 0 { der_decrypt_event(t, &sess(), "C05", &arr(&v["d"]), &arr(&v["ct"]), v["order"].as_str().unwrap(), "interop"); }
         }
     }
+    // ephemeral scalars whose C1 has leading zero bytes in x or y (the DER INTEGER is shorter than 32 bytes): encrypt under the script,
+    // re-frame as DER, decrypt through the DER entry point
+    let key = key_from(&keys[0]).unwrap();
+    let mut ks: Vec<[u8; 32]> = vec![b32(&hexb("5e00711dcecea98cdf20e3820067019b0b56766bab3f7c379adb20d426ca8d0f")), b32(&hexb("7b3b4f0229243dd52ea81dc91439d4611b5ee9fce711bd355a0bf02924bffee8"))];
+    for want_y in [false, true] { if let Some(k) = search_k(&mut rng, want_y, 1, 20000) { ks.push(k); } }
+    for k in ks {
+        if let Some(ct) = encrypt_event(t, &sess(), &key, None, b"short coordinate", "c1c3c2", false, vec![k]) {
+            der_decrypt_event(t, &sess(), "C05", &key.d, &ct, "c1c3c2", "interop-short-coord");
+        }
+    }
+}
+
+fn tlv(tag: u8, v: &[u8]) -> Vec<u8> { let mut o = vec![tag]; if v.len() < 128 { o.push(v.len() as u8); } else if v.len() < 256 { o.push(0x81); o.push(v.len() as u8); } else { o.push(0x82); o.push((v.len() >> 8) as u8); o.push(v.len() as u8); } o.extend_from_slice(v); o }
+fn der_int(v: &[u8]) -> Vec<u8> { let mut i = 0; while i + 1 < v.len() && v[i] == 0 { i += 1; } let mut b = v[i..].to_vec(); if b[0] >= 0x80 { b.insert(0, 0); } b }
+/// re-frame a raw uncompressed ciphertext as SEQUENCE { INTEGER x, INTEGER y, OCTET STRING C3, OCTET STRING C2 } and decrypt it through decrypt_asn1
+fn der_decrypt_event(t: &mut Tracer, sess: &str, prop: &str, d: &[u8], ct: &[u8], order: &str, fault: &str) {
+    if ct.len() <= 97 { return; }
+    let (c2, c3) = if order == "c1c2c3" { (ct[65..ct.len() - 32].to_vec(), ct[ct.len() - 32..].to_vec()) } else { (ct[97..].to_vec(), ct[65..97].to_vec()) };
+    let der = tlv(0x30, &[tlv(2, &der_int(&ct[1..33])), tlv(2, &der_int(&ct[33..65])), tlv(4, &c3), tlv(4, &c2)].concat());
+    let out = match guard(|| Sm2PrivateKey::new(d)) {
+        Outcome::Ok(sk) => { let c = der.clone(); guard_timed(20, move || sk.decrypt_asn1(&c, false, Sm2Model::C1C3C2)) }
+        Outcome::Err(e) => Outcome::Err(e), Outcome::Panic(p) => Outcome::Panic(p), Outcome::Timeout => Outcome::Timeout,
+    };
+    let o = out.ok().cloned().unwrap_or_default();
+    t.emit(sess, "codec.asn1_dec", json!({"prop": prop, "d": bytes(d), "der": bytes(&der), "fault": fault, "out": bytes(&o), "outcome": out.name(), "detail": out.detail()}));
 }
 
 pub fn drive_decrypt_faults(t: &mut Tracer, tier: &str, seed: u64, plan: Option<String>) {
@@ -400,6 +427,18 @@ pub fn drive_decrypt_faults(t: &mut Tracer, tier: &str, seed: u64, plan: Option<
         for len in 0..ct.len() {
             if !thorough && i > 0 && len % 4 != 0 { continue; }
             decrypt_event(t, &sess(), "C06", &key.d, &ct[..len], order, comp, "truncated");
+        }
+        // alterations of C3 that keep its XOR / byte sum (a folding comparison does not see them): byte swap, same bit in two bytes
+        {
+            let c1len = if comp { 33 } else { 65 };
+            let c3at = if order == "c1c3c2" { c1len } else { ct.len() - 32 };
+            for rep in 0..(if thorough { 16 } else { 4 }) {
+                let mut c2 = ct.clone();
+                let (i, mut j) = (rng.below(32) as usize, rng.below(32) as usize);
+                if rep % 2 == 0 { while c2[c3at + j] == c2[c3at + i] { j = (j + 1) % 32; if j == i { break; } } c2.swap(c3at + i, c3at + j); }
+                else { if j == i { j = (i + 1) % 32; } let b = 1u8 << rng.below(8); c2[c3at + i] ^= b; c2[c3at + j] ^= b; }
+                if c2 != ct { decrypt_event(t, &sess(), "C06", &key.d, &c2, order, comp, "fold-c3"); }
+            }
         }
         // wrong format flags, extension, other key
         decrypt_event(t, &sess(), "C06", &key.d, &ct, order, !comp, "wrong-encoding-flag");
@@ -492,13 +531,18 @@ fn hooked<T: Send + 'static>(f: impl FnOnce() -> gm_sm2::error::Sm2Result<T> + S
     }
 }
 
-struct KxRun { t_ra: bool, t_rb: bool, t_sb: bool, t_sa: bool, kind: String, klen: usize, ida: String, idb: String, ra_script: Vec<[u8; 32]>, rb_script: Vec<[u8; 32]>, da: Vec<u8>, db: Vec<u8>, forge: Option<(Vec<u8>, Vec<u8>, Vec<u8>)> }
+struct KxRun { t_ra: bool, t_rb: bool, t_sb: bool, t_sa: bool, kind: String, klen: usize, ida: String, idb: String, ra_script: Vec<[u8; 32]>, rb_script: Vec<[u8; 32]>, da: Vec<u8>, db: Vec<u8>, forge: Option<(Vec<u8>, Vec<u8>, Vec<u8>)>, none_mask: u8 }
 
 fn kx_run(t: &mut Tracer, sess: &str, run: &KxRun, rng: &mut Rng) {
     use std::sync::{Arc, Mutex};
     let (ka, kb) = match (key_from(&run.da), key_from(&run.db)) { (Some(a), Some(b)) => (a, b), _ => return };
-    let mk = |me: &Key, id: &str, other: &Key, oid: &str| Exchange::new(run.klen, Some(id), &me.sk.public_key, &me.sk, Some(oid), &other.sk.public_key);
-    let (a, b) = match (mk(&ka, &run.ida, &kb, &run.idb), mk(&kb, &run.idb, &ka, &run.ida)) { (Ok(a), Ok(b)) => (Arc::new(Mutex::new(a)), Arc::new(Mutex::new(b))), _ => return };
+    // none_mask: bit 0 = A passes None for its own ID, 1 = A passes None for the peer's ID, 2 = B own, 3 = B peer (only where that ID IS the default
+    // ID "1234567812345678": None must mean exactly that ID, for either role)
+    let dflt = "1234567812345678";
+    let opt = |id: &'static str, bit: u8| if run.none_mask & (1 << bit) != 0 && id == dflt { None } else { Some(id) };
+    let (ida_s, idb_s) = (leak(&run.ida), leak(&run.idb));
+    let mk = |me: &Key, id: Option<&'static str>, other: &Key, oid: Option<&'static str>| Exchange::new(run.klen, id, &me.sk.public_key, &me.sk, oid, &other.sk.public_key);
+    let (a, b) = match (mk(&ka, opt(ida_s, 0), &kb, opt(idb_s, 1)), mk(&kb, opt(idb_s, 2), &ka, opt(ida_s, 3))) { (Ok(a), Ok(b)) => (Arc::new(Mutex::new(a)), Arc::new(Mutex::new(b))), _ => return };
     let common = json!({"prop": "C15", "pkA": bytes(&ka.pk65), "pkB": bytes(&kb.pk65), "idA": bytes(run.ida.as_bytes()), "idB": bytes(run.idb.as_bytes()), "klen": run.klen});
     let with = |extra: Value| { let mut m = common.clone(); for (k, v) in extra.as_object().unwrap() { m[k] = v.clone(); } m };
     let tam = |flag: bool| if flag { run.kind.clone() } else { "none".to_string() };
@@ -553,26 +597,33 @@ pub fn drive_kex(t: &mut Tracer, tier: &str, seed: u64, plan: Option<String>) {
     let annex = KxRun { t_ra: false, t_rb: false, t_sb: false, t_sa: false, kind: "none".into(), klen: 16, ida: "1234567812345678".into(), idb: "1234567812345678".into(),
         ra_script: vec![b32(&hexb("d4de15474db74d06491c440d305e012400990f3e390c7e87153c12db2ea60bb3"))],
         rb_script: vec![b32(&hexb("7e07124814b309489125eaed101113164ebf0f3458c5bd88335c1f9d596243d6"))],
-        da: hexb("81eb26e941bb5af16df116495f90695272ae2cd63d6c4ae1678418be48230029"), db: hexb("785129917d45a9ea5437a59356b82338eaadda6ceb199088f14ae10defa229b5"), forge: None };
+        da: hexb("81eb26e941bb5af16df116495f90695272ae2cd63d6c4ae1678418be48230029"), db: hexb("785129917d45a9ea5437a59356b82338eaadda6ceb199088f14ae10defa229b5"), forge: None, none_mask: 0 };
     kx_run(t, &sess(), &annex, &mut rng);
     // honest runs: klen 1..=200 (sampled in quick), random and edge keys, free ephemeral scalars
     let klens: Vec<usize> = if thorough { (1..=200).collect() } else { vec![1, 16, 31, 32, 33, 64, 100, 200] };
     for (i, klen) in klens.iter().enumerate() {
         let run = KxRun { t_ra: false, t_rb: false, t_sb: false, t_sa: false, kind: "none".into(), klen: *klen, ida: format!("alice{}", i), idb: if i % 3 == 0 { "1234567812345678".into() } else { format!("bob-{}", i) },
-            ra_script: vec![], rb_script: vec![], da: rk(&mut rng), db: rk(&mut rng), forge: None };
+            ra_script: vec![], rb_script: vec![], da: rk(&mut rng), db: rk(&mut rng), forge: None, none_mask: 0 };
+        kx_run(t, &sess(), &run, &mut rng);
+    }
+    // default IDs given as None by either party, for its own or for the peer's ID (the other party may spell the default ID out)
+    for (ida, idb, mask) in [("alice", "1234567812345678", 2u8), ("alice", "1234567812345678", 4), ("alice", "1234567812345678", 6), ("1234567812345678", "bob", 1), ("1234567812345678", "bob", 8),
+                             ("1234567812345678", "bob", 9), ("1234567812345678", "1234567812345678", 15), ("1234567812345678", "1234567812345678", 5)] {
+        let run = KxRun { t_ra: false, t_rb: false, t_sb: false, t_sa: false, kind: "none".into(), klen: 24, ida: ida.into(), idb: idb.into(), ra_script: vec![], rb_script: vec![],
+            da: rk(&mut rng), db: rk(&mut rng), forge: None, none_mask: mask };
         kx_run(t, &sess(), &run, &mut rng);
     }
     // every tamper subset x kind from the TLC plan
     for v in read_plan(&plan).iter().filter(|v| v["kind"] == "forge" && v["usable"] == 1) {
         let run = KxRun { t_ra: false, t_rb: false, t_sb: false, t_sa: false, kind: "none".into(), klen: 16, ida: "1234567812345678".into(), idb: "1234567812345678".into(),
-            ra_script: vec![b32(&arr(&v["ra"]))], rb_script: vec![], da: arr(&v["da"]), db: arr(&v["db"]), forge: Some((arr(&v["rbx"]), arr(&v["rby"]), arr(&v["sb"]))) };
+            ra_script: vec![b32(&arr(&v["ra"]))], rb_script: vec![], da: arr(&v["da"]), db: arr(&v["db"]), forge: Some((arr(&v["rbx"]), arr(&v["rby"]), arr(&v["sb"]))), none_mask: 0 };
         kx_run(t, &sess(), &run, &mut rng);
     }
     for (i, v) in read_plan(&plan).iter().filter(|v| v["kind"] != "forge").enumerate() {
         let reps = if thorough { 3 } else { 1 };
         for _ in 0..reps {
             let run = KxRun { t_ra: v["ra"] == 1, t_rb: v["rb"] == 1, t_sb: v["sb"] == 1, t_sa: v["sa"] == 1, kind: v["kind"].as_str().unwrap().into(), klen: 16 + (i % 40),
-                ida: "initiator".into(), idb: "responder".into(), ra_script: vec![], rb_script: vec![], da: rk(&mut rng), db: rk(&mut rng), forge: None };
+                ida: "initiator".into(), idb: "responder".into(), ra_script: vec![], rb_script: vec![], da: rk(&mut rng), db: rk(&mut rng), forge: None, none_mask: 0 };
             kx_run(t, &sess(), &run, &mut rng);
         }
     }
@@ -860,7 +911,7 @@ fn boundary_values(modulus_hex: &str, rng: &mut Rng, nrand: usize) -> Vec<(Vec<u
     v.into_iter().filter(|(x, _)| x.as_slice() < m.as_slice()).collect()
 }
 
-pub fn drive_ec(t: &mut Tracer, tier: &str, seed: u64) {
+pub fn drive_ec(t: &mut Tracer, tier: &str, seed: u64, plan: Option<String>) {
     let thorough = tier == "thorough";
     let mut rng = Rng(seed ^ 0x5211);
     let mut n = 0u64;
@@ -894,6 +945,21 @@ pub fn drive_ec(t: &mut Tracer, tier: &str, seed: u64) {
             let o = gp(|| a.is_valid());
             t.emit(&sess(), "ec.valid", json!({"prop": "C11", "p": pt_json(&a), "valid": if o.ok() == Some(&true) { 1 } else { 0 }, "outcome": o.name(), "detail": o.detail()}));
         }
+    }
+    // ---- representations with SPECIAL stored Z limbs (the plain integer 1 -- not the Montgomery one --, 2, single-limb values, p-1 ...):
+    //      shortcuts keyed on the representation of Z ("already affine", "Z is one") must not misfire on them ----
+    let pm1 = be_u256(&be_add_small(&hexb(P_HEX), -1));
+    for (i, zl) in [[1u64, 0, 0, 0], [2, 0, 0, 0], [0, 1, 0, 0], [0, 0, 1, 0], [0, 0, 0, 1], [0, 0, 0, 1 << 63], pm1, verif::fp_to_mont(&pm1), verif::fp_to_mont(&[2, 0, 0, 0])].iter().enumerate() {
+        let p = pts[i % pts.len()];
+        let p3 = rerandomize(&p.to_affine_point(), zl);
+        ec_event(t, &sess(), "ec.affine", json!({"p": pt_json(&p3)}), gp(|| p3.to_affine_point()));
+        ec_event(t, &sess(), "ec.add", json!({"p": pt_json(&p3), "q": pt_json(&p)}), gp(|| p3.point_add(&p)));
+        ec_event(t, &sess(), "ec.add", json!({"p": pt_json(&g), "q": pt_json(&p3)}), gp(|| g.point_add(&p3)));
+        ec_event(t, &sess(), "ec.dbl", json!({"p": pt_json(&p3)}), gp(|| p3.point_dbl()));
+        let o = gp(|| p3.is_valid());
+        t.emit(&sess(), "ec.valid", json!({"prop": "C11", "p": pt_json(&p3), "valid": if o.ok() == Some(&true) { 1 } else { 0 }, "outcome": o.name(), "detail": o.detail()}));
+        let k = be_add_small(&vec![0u8; 32], 5 + i as i64); let ku = be_u256(&k);
+        ec_event(t, &sess(), "ec.smul", json!({"p": pt_json(&p3), "k": bytes(&k)}), gp(|| p3.scalar_mul(&ku)));
     }
     // ---- scalar multiplication: special and random scalars, affine and Jacobian base points ----
     let mut scalars: Vec<Vec<u8>> = vec![vec![0u8; 32], be_add_small(&vec![0u8; 32], 1), be_add_small(&vec![0u8; 32], 2), be_add_small(&nhex, -1), nhex.clone(), vec![0xffu8; 32]];
@@ -964,6 +1030,20 @@ pub fn drive_ec(t: &mut Tracer, tier: &str, seed: u64) {
             let o = gp(|| verif::fn_pow(&au, &be_u256(&e)));
             let ob = o.ok().map(|x| u256_be(x)).unwrap_or(vec![0u8; 32]);
             t.emit(&sess(), "fn.op", json!({"prop": "C11", "f": "pow", "cls": ca, "a": bytes(a), "b": bytes(&e), "out": bytes(&ob), "outcome": o.name(), "detail": o.detail()}));
+        }
+    }
+    // ---- operands computed by the specification (PlanField) so that a Montgomery product lands in [m, 2^256): the rare branch of the final correction ----
+    for v in read_plan(&plan) {
+        let (a, b, f) = (arr(&v["a"]), arr(&v["b"]), v["f"].as_str().unwrap_or("").to_string());
+        let (au, bu) = (be_u256(&a), be_u256(&b));
+        if v["kind"] == "fp" {
+            let o = gp(|| match f.as_str() { "mul" => verif::fp_mont_mul(&au, &bu), "to_mont" => verif::fp_to_mont(&au), _ => verif::fp_from_mont(&au) });
+            let ob = o.ok().map(|x| u256_be(x)).unwrap_or(vec![0u8; 32]);
+            t.emit(&sess(), "fp.op", json!({"prop": "C11", "f": f, "cls": "planned-window", "a": bytes(&a), "b": bytes(&b), "out": bytes(&ob), "outcome": o.name(), "detail": o.detail()}));
+        } else if v["kind"] == "fn" {
+            let o = gp(|| verif::fn_mul(&au, &bu));
+            let ob = o.ok().map(|x| u256_be(x)).unwrap_or(vec![0u8; 32]);
+            t.emit(&sess(), "fn.op", json!({"prop": "C11", "f": "mul", "cls": "planned-window", "a": bytes(&a), "b": bytes(&b), "out": bytes(&ob), "outcome": o.name(), "detail": o.detail()}));
         }
     }
     // ---- the fixed-base table: all 32 x 255 entries, one session (exhaustive in both tiers) ----
